@@ -16,6 +16,7 @@ import random as _random
 
 from harness.common.framework import Prop, CaseTimeout
 from harness import c11_geno as G
+from translate import t_c11
 
 ENUM_CAP = {'quick': 250, 'thorough': 600}
 SWEEP_CAP = 80
@@ -140,25 +141,29 @@ class C11(Prop):
   id = 'C11'
   props_modules = ['PgProps.C11']
   driver = 'drv_c11'
-  translators = []
+  translators = [t_c11.run]
   case_timeout_s = 240
   jobs_quick = 8
   rule = ('specs: random trees of spaces / single and multi choices (k<=4, n<=5, all distinct x sorted '
           'modes, nesting depth<=3, conditional sub-spaces of 1-3 elements), a non-finite stream with '
           'float and custom points (~25 %), and the exhaustive depth-1 family (k<=3, n<=4, candidates '
-          'from {constant, oneof(2), manyof(2 of 3), space of two}; quick: a seeded sample, thorough: all). '
+          'from {constant, oneof(2), manyof(2 of 3), space of two}; quick: a slice stratified by k x distinct x '
+          'sorted x position of the conditional candidates, thorough: all). '
           'Per spec: full enumeration when the size bound is <= 2000, members (first/last/random), '
           '8-24 one-step corruptions of members (index +-1, -1, n, swap, duplicate, drop/add child, type '
           'change, stray value), scripted and seeded random_dna, DNA comparisons. Non-trivial: the spec '
           'has at least 2 DNAs or is non-finite; distinct: by case JSON.')
   trusted_base = [
+      'translator translate/t_c11.py: shape tables of _space_size, next_value_for_choice, min_remaining_choices and '
+      'the _next_dna loop (obligations C11_shape_*: syntactic identity with the tables the model was written from)',
       'harness/c11_geno.py: independent brute-force reference of the member set (itertools.product + filter) '
       'and structural membership test, used by the oracle',
       'random.Random is replaced by a scripted oracle for the model comparison; seeded random.Random runs '
       'are checked by the oracle only',
       'modelled, not verified: validate / use_spec / space_size / first_dna / next_dna / random_dna / __cmp__ '
       '(hand-written Lean mirror tied by correspondence); custom decision points\' user callbacks and hints '
-      'are outside the model; next_dna on non-members is not compared',
+      'are outside the model; next_dna is compared on members AND on the one-step corruptions (tree / None / raises, '
+      'after the binding that next_dna applies to its result)',
       'every clause of the property is a Lean theorem about the model (PgProps/C11.lean); the driver-internal '
       'checks iter == allValid and size == |allValid| on every enumerated spec are now redundant sanity checks',
   ]
@@ -216,8 +221,20 @@ class C11(Prop):
     # the exhaustive depth-1 family (and a slice of depth 2 built on top of it)
     fam = list(G.family_points())
     if tier == 'quick':
-      small = [p for p in fam if G.size_bound(p) <= 64]
-      picked = rng.sample(small, 200)
+      # stratified slice: every (k, distinct, sorted) mode x position of the conditional candidates
+      # (none / first / last / elsewhere), so that k = 3 with a nested LAST candidate is always present
+      cells = {}
+      for p in fam:
+        if G.size_bound(p) > 160:
+          continue
+        nonconst = [bool(c) for c in p['cands']]
+        pos = ('none' if not any(nonconst) else 'last' if nonconst[-1] else
+               'first' if nonconst[0] else 'mid')
+        cells.setdefault((p['k'], p['d'], p['s'], pos), []).append(p)
+      picked = []
+      for key in sorted(cells, key=repr):
+        group = cells[key]
+        picked += rng.sample(group, min(len(group), 6 if key[0] > 1 else 4))
     else:
       picked = fam      # all 3012; fully enumerated when the size bound is <= cap (1844 of them)
     for p in picked:
@@ -231,8 +248,10 @@ class C11(Prop):
         spec = G.S([a, b])
       else:
         n = rng.randint(2, 3)
-        k = rng.randint(1, 2)
+        k = rng.randint(1, 3)
         d, s = rng.chance(0.5), rng.chance(0.5)
+        if d and k > n:
+          d = False
         cands = [rng.choice([[], [a], [b], [a, b]]) for _ in range(n)]
         spec = G.C(k, cands, d, s)
       if G.size_bound(spec) <= cap:
@@ -314,7 +333,7 @@ class C11(Prop):
       c['validate'] = verdict(lambda: spec.validate(dna))
       fresh = mk_dna(d['tree'])
       c['bind'] = verdict(lambda: fresh.use_spec(spec))
-      if finite and G.ref_valid(spec_j, c['norm']):
+      if finite:
         try:
           nxt = spec.next_dna(mk_dna(d['tree']))
           c['next'] = None if nxt is None else tree_of(nxt)
@@ -454,10 +473,10 @@ class C11(Prop):
         if member and not ok:
           return {'signature': '%s-rejects-member' % api,
                   'what': '%s raises %s on the member %s' % (api, c[api], c['norm'])}
-      if 'next' in c and c['next'] not in (None, 'error'):
+      if member and 'next' in c and c['next'] not in (None, 'error'):
         if not G.ref_valid(spec, c['next']):
           return {'signature': 'next-not-a-member', 'what': 'next_dna(%s) = %s' % (c['norm'], c['next'])}
-      if c.get('next') == 'error':
+      if member and c.get('next') == 'error':
         return {'signature': 'next-raises-on-member', 'what': 'next_dna(%s) raised %s' % (c['norm'], c.get('next_error'))}
     # random generation returns members
     for r in m['randoms']:
